@@ -6,10 +6,10 @@ SIMPLE_FORMS = ['assign', 'expr', 'print', 'emit', 'write', 'for', 'if', 'with',
                 'multicall', 'semi', 'semiemit', 'tq', 'tqprint', 'callmod', 'callmod_expr', 'comment']
 ASYNC_FORMS = ['await', 'awaitexpr', 'awaitprint', 'gather', 'asyncwith', 'asyncfor', 'bgtask']
 NPTS = {'for': 2, 'if': 2, 'try': 2, 'tryexc': 2, 'semi': 2, 'semiemit': 2, 'multicall': 2, 'asyncwith': 3,
-        'asyncfor': 2, 'comment': 0, 'directive': 0, 'defhelper': 0, 'defemit': 0, 'defclass': 0,
+        'asyncfor': 2, 'comment': 0, 'blankprompt': 0, 'directive': 0, 'defhelper': 0, 'defemit': 0, 'defclass': 0,
         'asyncdef': 0, 'badcompile': 0, 'usename': 0, 'useG': 0, 'useshadow': 0, 'delconst': 0, 'hasconst': 0,
-        'decodef2': 2, 'bgtask': 3}
-MULTILINE_FORMS = {'bgtask', 'for', 'if', 'with', 'try', 'tryexc', 'multiline', 'multicall', 'tq', 'tqprint', 'defhelper',
+        'decodef2': 2, 'bgtask': 3, 'useclass': 0, 'trysibling': 2}
+MULTILINE_FORMS = {'bgtask', 'trysibling', 'for', 'if', 'with', 'try', 'tryexc', 'multiline', 'multicall', 'tq', 'tqprint', 'defhelper',
                    'defemit', 'asyncwith', 'asyncfor', 'asyncdef', 'defclass', 'decoclass', 'decoasync', 'decodef2'}
 # forms in which a point may raise without the doctest's own code handling it
 TB_FORMS = {'expr', 'print', 'emit', 'multiline', 'assign', 'callmod', 'callmod_expr', 'callhelper',
@@ -121,6 +121,9 @@ def gen_steps(rng, cfg, pfx, modname):
             st['modname'] = modname
         if form == 'delconst':
             deleted = True
+        if form == 'blankprompt':
+            st['n'] = rng.choice([1, 1, 2])
+            st['ps2'] = False
         if cfg.p_inline_dir and form not in W.NOCODE_FORMS and form not in ('tq', 'tqprint', 'bgtask') and rng.random() < cfg.p_inline_dir:
             st['inline'] = rng.choice(HARMLESS_DIRS)
             st['inline_at'] = rng.choice(['first', 'last'])
